@@ -23,7 +23,7 @@ FINISH = dict(rule='(i) TLC behaviours of Kernel.tla (scenario = answers of the 
 def combos(tier, seed):
     rng = random.Random(seed)
     out = []
-    settings = list(itertools.product([40, None, 10], [None, 0.5, (0.5, 0.5)], [0.1, None], [True, False], ['none', 'func', 'dict']))
+    settings = list(itertools.product([40, None, 10], [None, 0.5, (0.5, 0.3)], [0.1, None], [True, False], ['none', 'func', 'dict']))
     k = 0
     for (tr, ice) in TRACER_ICE:
         for model in MODELS:
@@ -39,7 +39,7 @@ def combos(tier, seed):
                     off, wmin, interp, writer, trig = settings[(k * 7 + rng.randrange(len(settings))) % len(settings)]
                     k += 1
                     if gen == 'list' and _ == 0:
-                        off, wmin = 40, (0.5 if k % 2 else (0.5, 0.5))     # steer: off-cone and weight cuts active
+                        off, wmin = 40, (0.5 if k % 2 else (0.5, 0.3))     # steer: off-cone and weight cuts active
                     out.append(dict(tracer=tr, ice=ice, model=model, gen=gen, writer=writer, trig=trig, offcone=off,
                                     wmin=wmin, interp=interp))
     return out
@@ -67,7 +67,7 @@ def run(r):
     r.model_check('KernelMC', 'Kernel_full.cfg' if thorough else 'Kernel_small.cfg')
     r.exhaustive = True
     # (i) spec -> code on scripted components
-    s = tlc.simulate('KernelMC', 'Kernel_full.cfg', 'C10/sim', num=30000 if thorough else 3000, depth=60, seed=r.seed + 10)
+    s = tlc.simulate('KernelMC', 'Kernel_full.cfg' if thorough else 'Kernel_small.cfg', 'C10/sim', num=30000 if thorough else 3000, depth=60, seed=r.seed + 10)
     if s.violated:
         raise tlc.TLCError('simulation violates %s' % s.violated)
     r.transitions += s.generated
